@@ -115,6 +115,24 @@ func (r *rt) BeforeRW(mx *sync.RWMutex, write bool) {
 	})
 }
 
+// BeforeLockAny is the generic announcement inserted by tools/hookfill before
+// lock calls that carry no typed hook.
+func (r *rt) BeforeLockAny(p interface{}, write bool) {
+	switch m := p.(type) {
+	case *sync.RWMutex:
+		r.BeforeRW(m, write)
+	case **sync.RWMutex:
+		r.BeforeRW(*m, write)
+	case *sync.Mutex:
+		r.BeforeMutex(m)
+	case **sync.Mutex:
+		r.BeforeMutex(*m)
+	default:
+		// some other Locker: a scheduling point without a readiness predicate
+		r.s.Yield("lock-any", nil)
+	}
+}
+
 func (r *rt) BeforeMutex(mx *sync.Mutex) {
 	r.s.Yield("mutex", func() bool {
 		if mx.TryLock() {
